@@ -42,6 +42,22 @@ type BGVCase struct {
 	FSeed   uint64 `json:"fseed,omitempty"`   //
 	NewKey  bool   `json:"newKey,omitempty"`  // transform: re-encrypt under a different collective key
 	OutMode int    `json:"outMode,omitempty"` // 0: in place; 1: separate ciphertext, metadata copied by the caller; 2: fresh bgv.NewCiphertext
+
+	OutQ   []uint64   `json:"outQ,omitempty"`   // transform: output parameter set = same N, t and distributions, these moduli (levelOut refers to this chain)
+	OutP   []uint64   `json:"outP,omitempty"`   //
+	Second *BGVSecond `json:"second,omitempty"` // a second ciphertext sent through the same protocol instances
+}
+
+// BGVSecond describes the second ciphertext of a case.
+type BGVSecond struct {
+	Seed    uint64  `json:"seed"`
+	LevelIn int     `json:"levelIn"`
+	LevelE  int     `json:"levelE2S"`
+	LevelO  int     `json:"levelOut"`
+	Scale   uint64  `json:"scale"`
+	Pattern string  `json:"pattern"`
+	Merges  []Merge `json:"merges"`
+	OutMode int     `json:"outMode"`
 }
 
 func (c BGVCase) RandSeed() uint64 { return c.Seed }
@@ -156,6 +172,8 @@ var fKinds = []string{"id", "zero", "scale", "perm", "bcast", "map"}
 
 func genBGVRefresh(t *rapid.T) BGVCase {
 	c := genBGVCommon(t)
+	need := bgvNeedBits(c.Params.T, c.Parties, c.Params.Xe.Std(1<<c.Params.LogN), c.Params.Xe.AbsBound(), c.Sigma)
+	qOut := c.Params.Q
 	if rapid.IntRange(0, 2).Draw(t, "mode") == 0 {
 		c.Mode = "refresh"
 	} else {
@@ -165,8 +183,39 @@ func genBGVRefresh(t *rapid.T) BGVCase {
 		c.FKind = fKinds[rapid.IntRange(0, len(fKinds)-1).Draw(t, "fkind")]
 		c.FSeed = rapid.Uint64().Draw(t, "fseed")
 		c.NewKey = rapid.Bool().Draw(t, "newKey")
+		if rapid.IntRange(0, 2).Draw(t, "otherParams") == 0 {
+			// other output moduli (same N, t): 1-4 Q primes, 0-2 P primes, first prime >= 48 bits
+			m := uint64(2) << c.Params.LogN
+			used := map[uint64]bool{c.Params.T: true}
+			sizes := h.GenSizes(t, rapid.IntRange(1, 4).Draw(t, "nQout"), 36, 60, "qo")
+			if sizes[0] < 48 {
+				sizes[0] = 48 + sizes[0]%12
+			}
+			c.OutQ = h.GenPrimes(t, sizes, m, used, "qo")
+			if nP := rapid.IntRange(0, 2).Draw(t, "nPout"); nP > 0 {
+				c.OutP = h.GenPrimes(t, h.GenSizes(t, nP, 36, 60, "po"), m, used, "po")
+			}
+			qOut = c.OutQ
+			if mo := minLevelFor(qOut, need); mo < 0 {
+				c.OutQ, c.OutP, qOut = nil, nil, c.Params.Q
+			} else {
+				c.LevelO = rapid.IntRange(mo, len(qOut)-1).Draw(t, "levelOutO")
+			}
+		}
 	}
 	c.OutMode = rapid.IntRange(0, 2).Draw(t, "outMode")
+	if rapid.Bool().Draw(t, "second") {
+		minI, minO := minLevelFor(c.Params.Q, need), minLevelFor(qOut, need)
+		s := &BGVSecond{Seed: rapid.Uint64().Draw(t, "seed2")}
+		s.LevelIn = rapid.IntRange(minI, len(c.Params.Q)-1).Draw(t, "levelIn2")
+		s.LevelE = rapid.IntRange(minI, s.LevelIn).Draw(t, "levelE2")
+		s.LevelO = rapid.IntRange(minO, len(qOut)-1).Draw(t, "levelO2")
+		s.Scale = rapid.Uint64Range(1, c.Params.T-1).Draw(t, "scale2")
+		s.Pattern = valuePatterns[rapid.IntRange(0, len(valuePatterns)-1).Draw(t, "pattern2")]
+		s.Merges = genMerges(t, c.Parties)
+		s.OutMode = rapid.IntRange(0, 2).Draw(t, "outMode2")
+		c.Second = s
+	}
 	return c
 }
 
@@ -267,8 +316,12 @@ type bgvCtx struct {
 
 func (c BGVCase) valid() bool {
 	L := len(c.Params.Q) - 1
+	LO := L
+	if len(c.OutQ) > 0 {
+		LO = len(c.OutQ) - 1
+	}
 	return c.Parties >= 1 && c.Parties <= 8 && validMerges(c.Merges, c.Parties) && c.Sigma > 0 && L >= 0 &&
-		c.LevelIn >= 0 && c.LevelIn <= L && c.LevelE >= 0 && c.LevelE <= c.LevelIn && c.LevelO >= 0 && c.LevelO <= L &&
+		c.LevelIn >= 0 && c.LevelIn <= L && c.LevelE >= 0 && c.LevelE <= c.LevelIn && c.LevelO >= 0 && c.LevelO <= LO &&
 		c.Params.T > 2 && c.Scale%c.Params.T != 0 && c.OutMode >= 0 && c.OutMode <= 2
 }
 
@@ -283,7 +336,7 @@ func setupBGV(c BGVCase, rec *h.Rec) (*bgvCtx, error) {
 	x := &bgvCtx{c: c, params: params}
 	x.needBit = bgvNeedBits(c.Params.T, c.Parties, c.Params.Xe.Std(1<<c.Params.LogN), c.Params.Xe.AbsBound(), c.Sigma)
 	x.enough = func(level int) bool { return chainBits(c.Params.Q, level) > x.needBit }
-	if !x.enough(c.LevelE) || !x.enough(c.LevelO) {
+	if !x.enough(c.LevelE) || (len(c.OutQ) == 0 && !x.enough(c.LevelO)) {
 		return nil, nil // below the minimum level for exact masked decryption: outside the property's domain
 	}
 	x.ecd = bgv.NewEncoder(params)
@@ -633,21 +686,85 @@ func TestPropBGVShares(t *testing.T) { propBGVShares.Check(t) }
 
 // ---- refresh / masked transform --------------------------------------------------------------------------------------
 
+// newCT encrypts a fresh message under the collective input key.
+func (x *bgvCtx) newCT(seed uint64, levelIn int, drop bool, scale uint64, pattern string) (*rlwe.Ciphertext, []uint64, error) {
+	params := x.params
+	rng := h.NewSplitMix(seed)
+	values := fillValues(pattern, x.c.Params.T, x.nT, rng)
+	lvl := levelIn
+	if drop {
+		lvl = params.MaxLevel()
+	}
+	pt := bgv.NewPlaintext(params, lvl)
+	pt.Scale = params.NewScale(scale)
+	if err := x.ecd.Encode(values, pt); err != nil {
+		return nil, nil, h.Failf("C16:setup:encode", "%v", err)
+	}
+	ct := bgv.NewCiphertext(params, 1, lvl)
+	if err := rlwe.NewEncryptor(params, x.in.ideal).Encrypt(pt, ct); err != nil {
+		return nil, nil, h.Failf("C16:setup:encrypt", "%v", err)
+	}
+	if drop {
+		ct.Resize(1, levelIn)
+	}
+	return ct, values, nil
+}
+
+// bgvRound is one ciphertext sent through the (re-used) protocol instances of a refresh / transform case.
+type bgvRound struct {
+	ct      *rlwe.Ciphertext
+	values  []uint64
+	levelIn int
+	levelE  int
+	levelO  int
+	merges  []Merge
+	outMode int
+	seed    uint64
+	first   bool
+}
+
+func (c BGVCase) outSpec() h.BGVSpec {
+	o := c.Params
+	if len(c.OutQ) > 0 {
+		o.Q, o.P = c.OutQ, c.OutP
+	}
+	return o
+}
+
 func runBGVRefresh(c BGVCase, rec *h.Rec) error {
 	if c.Mode != "refresh" && c.Mode != "transform" {
+		return nil
+	}
+	otherParams := len(c.OutQ) > 0
+	if otherParams && c.Mode != "transform" {
 		return nil
 	}
 	x, err := setupBGV(c, rec)
 	if x == nil || err != nil {
 		return err
 	}
-	params, n, ct := x.params, c.Parties, x.ct
+	params, n := x.params, c.Parties
+	paramsOut := params
+	qOut := c.Params.Q
+	if otherParams {
+		if paramsOut, err = c.outSpec().Build(); err != nil {
+			return nil
+		}
+		qOut = c.OutQ
+		rec.Class("paramsOut!=paramsIn")
+	}
+	enoughOut := func(level int) bool { return level >= 0 && level < len(qOut) && chainBits(qOut, level) > x.needBit }
+	enoughIn := func(level int) bool { return level >= 0 && level < len(c.Params.Q) && chainBits(c.Params.Q, level) > x.needBit }
+	if !enoughOut(c.LevelO) {
+		return nil
+	}
 	ringT := params.RingT()
 	T := c.Params.T
+	ecdOut := bgv.NewEncoder(paramsOut)
 
 	outKeys := x.in
-	if c.Mode == "transform" && c.NewKey {
-		outKeys = newKeySet(params.Parameters, n, nil)
+	if c.Mode == "transform" && (c.NewKey || otherParams) {
+		outKeys = newKeySet(paramsOut.Parameters, n, nil)
 	}
 
 	var tf *mpbgv.MaskedTransformFunc
@@ -662,38 +779,7 @@ func runBGVRefresh(c BGVCase, rec *h.Rec) error {
 	}
 	rec.Classf("outMode=%d", c.OutMode)
 
-	// expected plaintext polynomial modulo t of the output
-	scale := ct.Scale
-	ptT := ringT.NewPoly()
-	if err := x.ecd.EncodeRingT(x.values, scale, ptT); err != nil {
-		return h.Failf("C16:setup:EncodeRingT", "%v", err)
-	}
-	wantT := ringT.NewPoly()
-	wantValues := append([]uint64{}, x.values...) // slot values of the output when it is a batched plaintext again
-	if tf == nil {
-		wantT.Copy(ptT)
-	} else {
-		u := make([]uint64, x.nT)
-		if c.Decode {
-			copy(u, x.values)
-		} else {
-			copy(u, ptT.Coeffs[0])
-		}
-		f.apply(u)
-		if c.Encode {
-			if err := x.ecd.EncodeRingT(u, scale, wantT); err != nil {
-				return h.Failf("C16:setup:EncodeRingT", "%v", err)
-			}
-		} else {
-			copy(wantT.Coeffs[0], u)
-		}
-		if c.Decode && c.Encode {
-			copy(wantValues, u)
-		}
-	}
-	sameKind := tf == nil || (c.Decode && c.Encode) // output is a batched plaintext at the input scale
-
-	// protocol instances: RefreshProtocol for "refresh", MaskedTransformProtocol otherwise
+	// protocol instances (created once, used for every ciphertext of the case)
 	var rfp0 mpbgv.RefreshProtocol
 	var mtp0 mpbgv.MaskedTransformProtocol
 	if c.Mode == "refresh" {
@@ -702,189 +788,259 @@ func runBGVRefresh(c BGVCase, rec *h.Rec) error {
 		}
 		mtp0 = rfp0.MaskedTransformProtocol
 	} else {
-		if mtp0, err = mpbgv.NewMaskedTransformProtocol(params, params, x.noise); err != nil {
+		if mtp0, err = mpbgv.NewMaskedTransformProtocol(params, paramsOut, x.noise); err != nil {
 			return h.Failf("C16:mpbgv:NewMaskedTransformProtocol:error", "%v", err)
 		}
 	}
-	proto := func(i int) mpbgv.MaskedTransformProtocol {
+	inst := make([]mpbgv.MaskedTransformProtocol, n)
+	for i := range inst {
 		if i == 0 || !c.Shallow {
-			return mtp0
-		}
-		return mtp0.ShallowCopy()
-	}
-
-	crp := mtp0.SampleCRP(c.LevelO, x.crs)
-	shares := make([]multiparty.RefreshShare, n)
-	ctOrig := ct.CopyNew()
-	for i := 0; i < n; i++ {
-		p := proto(i)
-		shares[i] = p.AllocateShare(c.LevelE, c.LevelO)
-		if c.Mode == "refresh" {
-			err = mpbgv.RefreshProtocol{MaskedTransformProtocol: p}.GenShare(x.in.shares[i], ct, crp, &shares[i])
+			inst[i] = mtp0
 		} else {
-			err = p.GenShare(x.in.shares[i], outKeys.shares[i], ct, crp, tf, &shares[i])
-		}
-		if err != nil {
-			return h.Failf("C16:mpbgv:"+c.Mode+":GenShare:error", "%v", err)
+			inst[i] = mtp0.ShallowCopy()
 		}
 	}
-	if !ct.Equal(ctOrig) {
-		return h.Failf("C16:mpbgv:"+c.Mode+":GenShare:input-modified", "GenShare modified the input ciphertext")
-	}
+	skSnap := x.in.shares[0].Value.Q.CopyNew()
+	skOutSnap := outKeys.shares[0].Value.Q.CopyNew()
 
-	// smudging lower bound on refresh shares: without a transform the mask cancels between the two halves of a share,
-	// EncToShareShare + ShareToEncShare = c1*s_in - crp*s_out + e_dec + e_enc at the common level, so the recomputed
-	// e_dec + e_enc must have std >= sqrt(2) * sigma. Asserted per instance class (constructor / ShallowCopy); the party
-	// shares of a refresh run are included, the rest are extra identity-transform shares made with party 0's keys.
-	{
-		lc := c.LevelE
-		if c.LevelO < lc {
-			lc = c.LevelO
+	var prevOut *rlwe.Ciphertext // output ciphertext of the previous round, re-used as receiver
+
+	round := func(r bgvRound) error {
+		ct := r.ct
+		// expected plaintext polynomial modulo t of the output
+		scale := ct.Scale
+		ptT := ringT.NewPoly()
+		if err := x.ecd.EncodeRingT(r.values, scale, ptT); err != nil {
+			return h.Failf("C16:setup:EncodeRingT", "%v", err)
 		}
-		ringC := params.RingQ().AtLevel(lc)
-		residual := func(i int, sh multiparty.RefreshShare) []*big.Int {
-			r := ringC.NewPoly()
-			ringC.Add(sh.EncToShareShare.Value, sh.ShareToEncShare.Value, r)
-			ringC.MulCoeffsMontgomeryThenSub(ct.Value[1], x.in.shares[i].Value.Q, r)
-			ringC.MulCoeffsMontgomeryThenAdd(crp.Value, outKeys.shares[i].Value.Q, r)
-			ringC.INTT(r, r)
-			ringC.Reduce(r, r)
-			return centered(ringC, r)
-		}
-		var pools smudgePools
-		collect := func(k int, r []*big.Int) error {
-			if infNorm(r).Cmp(bigF(2*x.bParty)) > 0 {
-				return h.Failf("C16:mpbgv:"+c.Mode+":GenShare:noise-above-bound", "refresh-share noise %s exceeds the hard bound %g (sigma=%g)", infNorm(r), 2*x.bParty, c.Sigma)
+		wantT := ringT.NewPoly()
+		wantValues := append([]uint64{}, r.values...) // slot values of the output when it is a batched plaintext again
+		if tf == nil {
+			wantT.Copy(ptT)
+		} else {
+			u := make([]uint64, x.nT)
+			if c.Decode {
+				copy(u, r.values)
+			} else {
+				copy(u, ptT.Coeffs[0])
 			}
-			pools.add(k, r)
-			return nil
-		}
-		if c.Mode == "refresh" {
-			for i := range shares {
-				k := 1
-				if i == 0 || !c.Shallow {
-					k = 0
+			f.apply(u)
+			if c.Encode {
+				if err := x.ecd.EncodeRingT(u, scale, wantT); err != nil {
+					return h.Failf("C16:setup:EncodeRingT", "%v", err)
 				}
-				if err := collect(k, residual(i, shares[i])); err != nil {
+			} else {
+				copy(wantT.Coeffs[0], u)
+			}
+			if c.Decode && c.Encode {
+				copy(wantValues, u)
+			}
+		}
+		sameKind := tf == nil || (c.Decode && c.Encode) // output is a batched plaintext at the input scale
+
+		crp := mtp0.SampleCRP(r.levelO, x.crs)
+		crpSnap := crp.Value.CopyNew()
+		shares := make([]multiparty.RefreshShare, n)
+		ctOrig := ct.CopyNew()
+		for i := 0; i < n; i++ {
+			p := inst[i]
+			shares[i] = p.AllocateShare(r.levelE, r.levelO)
+			if c.Mode == "refresh" {
+				err = mpbgv.RefreshProtocol{MaskedTransformProtocol: p}.GenShare(x.in.shares[i], ct, crp, &shares[i])
+			} else {
+				err = p.GenShare(x.in.shares[i], outKeys.shares[i], ct, crp, tf, &shares[i])
+			}
+			if err != nil {
+				return h.Failf("C16:mpbgv:"+c.Mode+":GenShare:error", "%v", err)
+			}
+		}
+		if !ct.Equal(ctOrig) {
+			return h.Failf("C16:mpbgv:"+c.Mode+":GenShare:input-modified", "GenShare modified the input ciphertext")
+		}
+		if !crp.Value.Equal(crpSnap) || !x.in.shares[0].Value.Q.Equal(skSnap) || !outKeys.shares[0].Value.Q.Equal(skOutSnap) {
+			return h.Failf("C16:mpbgv:"+c.Mode+":GenShare:input-modified", "GenShare modified the CRP or a secret key")
+		}
+
+		// smudging lower bound on refresh shares: without a transform the mask cancels between the two halves of a share,
+		// EncToShareShare + ShareToEncShare = c1*s_in - crp*s_out + e_dec + e_enc at the common level, so the recomputed
+		// e_dec + e_enc must have std >= sqrt(2) * sigma. Asserted per instance class (constructor / ShallowCopy); the party
+		// shares of a refresh run are included, the rest are extra identity-transform shares made with party 0's keys.
+		if r.first && !otherParams {
+			lc := r.levelE
+			if r.levelO < lc {
+				lc = r.levelO
+			}
+			ringC := params.RingQ().AtLevel(lc)
+			residual := func(i int, sh multiparty.RefreshShare) []*big.Int {
+				q := ringC.NewPoly()
+				ringC.Add(sh.EncToShareShare.Value, sh.ShareToEncShare.Value, q)
+				ringC.MulCoeffsMontgomeryThenSub(ct.Value[1], x.in.shares[i].Value.Q, q)
+				ringC.MulCoeffsMontgomeryThenAdd(crp.Value, outKeys.shares[i].Value.Q, q)
+				ringC.INTT(q, q)
+				ringC.Reduce(q, q)
+				return centered(ringC, q)
+			}
+			var pools smudgePools
+			collect := func(k int, v []*big.Int) error {
+				if infNorm(v).Cmp(bigF(2*x.bParty)) > 0 {
+					return h.Failf("C16:mpbgv:"+c.Mode+":GenShare:noise-above-bound", "refresh-share noise %s exceeds the hard bound %g (sigma=%g)", infNorm(v), 2*x.bParty, c.Sigma)
+				}
+				pools.add(k, v)
+				return nil
+			}
+			if c.Mode == "refresh" {
+				for i := range shares {
+					k := 1
+					if i == 0 || !c.Shallow {
+						k = 0
+					}
+					if err := collect(k, residual(i, shares[i])); err != nil {
+						return err
+					}
+				}
+			}
+			mC := mtp0.ShallowCopy()
+			mCC := mC.ShallowCopy()
+			for k := 0; pools.short(0) || pools.short(1); k++ {
+				px, kc := mtp0, 0
+				if !pools.short(0) {
+					px, kc = mC, 1
+					if k%2 == 1 {
+						px = mCC
+					}
+				}
+				sh := px.AllocateShare(r.levelE, r.levelO)
+				if err := px.GenShare(x.in.shares[0], outKeys.shares[0], ct, crp, nil, &sh); err != nil {
+					return h.Failf("C16:mpbgv:"+c.Mode+":GenShare:error", "%v", err)
+				}
+				if err := collect(kc, residual(0, sh)); err != nil {
 					return err
 				}
 			}
-		}
-		mC := mtp0.ShallowCopy()
-		mCC := mC.ShallowCopy()
-		for k := 0; pools.short(0) || pools.short(1); k++ {
-			px, kc := mtp0, 0
-			if !pools.short(0) {
-				px, kc = mC, 1
-				if k%2 == 1 {
-					px = mCC
-				}
-			}
-			sh := px.AllocateShare(c.LevelE, c.LevelO)
-			if err := px.GenShare(x.in.shares[0], outKeys.shares[0], ct, crp, nil, &sh); err != nil {
-				return h.Failf("C16:mpbgv:"+c.Mode+":GenShare:error", "%v", err)
-			}
-			if err := collect(kc, residual(0, sh)); err != nil {
+			if err := pools.check(c.Sigma, math.Sqrt2, "C16:mpbgv:"+c.Mode+":GenShare:smudging-too-small", rec); err != nil {
 				return err
 			}
 		}
-		if err := pools.check(c.Sigma, math.Sqrt2, "C16:mpbgv:"+c.Mode+":GenShare:smudging-too-small", rec); err != nil {
-			return err
-		}
-	}
 
-	copyShare := func(s multiparty.RefreshShare) multiparty.RefreshShare {
-		return multiparty.RefreshShare{EncToShareShare: multiparty.KeySwitchShare{Value: *s.EncToShareShare.Value.CopyNew()},
-			ShareToEncShare: multiparty.KeySwitchShare{Value: *s.ShareToEncShare.Value.CopyNew()}, MetaData: s.MetaData}
-	}
-	ref := copyShare(shares[0])
-	for i := 1; i < n; i++ {
-		if err := mtp0.AggregateShares(ref, shares[i], &ref); err != nil {
+		copyShare := func(s multiparty.RefreshShare) multiparty.RefreshShare {
+			return multiparty.RefreshShare{EncToShareShare: multiparty.KeySwitchShare{Value: *s.EncToShareShare.Value.CopyNew()},
+				ShareToEncShare: multiparty.KeySwitchShare{Value: *s.ShareToEncShare.Value.CopyNew()}, MetaData: s.MetaData}
+		}
+		ref := copyShare(shares[0])
+		for i := 1; i < n; i++ {
+			if err := mtp0.AggregateShares(ref, shares[i], &ref); err != nil {
+				return h.Failf("C16:mpbgv:"+c.Mode+":AggregateShares:error", "%v", err)
+			}
+		}
+		agg, err := fold(shares, r.merges, func() multiparty.RefreshShare { return mtp0.AllocateShare(r.levelE, r.levelO) },
+			func(a, b multiparty.RefreshShare, o *multiparty.RefreshShare) error { return mtp0.AggregateShares(a, b, o) })
+		if err != nil {
 			return h.Failf("C16:mpbgv:"+c.Mode+":AggregateShares:error", "%v", err)
 		}
-	}
-	agg, err := fold(shares, c.Merges, func() multiparty.RefreshShare { return mtp0.AllocateShare(c.LevelE, c.LevelO) },
-		func(a, b multiparty.RefreshShare, o *multiparty.RefreshShare) error { return mtp0.AggregateShares(a, b, o) })
-	if err != nil {
-		return h.Failf("C16:mpbgv:"+c.Mode+":AggregateShares:error", "%v", err)
-	}
-	if !agg.MetaData.Equal(ct.MetaData) {
-		// an aggregation step wrote into a freshly allocated share: the metadata recorded by GenShare is not carried over
-		key := "C16:mpbgv:AggregateShares:metadata-not-propagated"
-		scratch := bgv.NewCiphertext(params, 1, c.LevelO)
-		*scratch.MetaData = *ct.MetaData
-		terr := mtp0.Transform(ct, tf, crp, agg, scratch)
-		msg := fmt.Sprintf("RefreshShare aggregated into a freshly allocated share has MetaData %+v instead of the one recorded by GenShare; Transform on it returns: %v", agg.MetaData, terr)
-		if rec.Known(key, msg) {
-			rec.Class("known=aggregate-metadata")
-			agg.MetaData = *ct.MetaData
-		} else {
-			return h.Failf(key, "%s", msg)
-		}
-	}
-	ringE, ringO := params.RingQ().AtLevel(c.LevelE), params.RingQ().AtLevel(c.LevelO)
-	if !congruent(ringE, agg.EncToShareShare.Value, ref.EncToShareShare.Value) || !congruent(ringO, agg.ShareToEncShare.Value, ref.ShareToEncShare.Value) {
-		return h.Failf("C16:mpbgv:"+c.Mode+":AggregateShares:order-dependent", "aggregate depends on the schedule %v", c.Merges)
-	}
-
-	var out *rlwe.Ciphertext
-	rng := h.NewSplitMix(c.Seed ^ 0x5bd1e995)
-	switch c.OutMode {
-	case 0:
-		out = ct
-	case 1:
-		out = bgv.NewCiphertext(params, 1, rng.Intn(params.MaxLevel()+1))
-		*out.MetaData = *ct.MetaData
-	default:
-		out = bgv.NewCiphertext(params, 1, rng.Intn(params.MaxLevel()+1))
-		if tf != nil && c.Decode != c.Encode {
-			// Transform decodes/encodes with ciphertextOut.Scale while GenShare used ct.Scale: with only one of the two flags
-			// the result depends on a scale the API does not let the caller request; keep the two equal.
-			out.Scale = ct.Scale
-		}
-	}
-	if c.Mode == "refresh" {
-		err = rfp0.Finalize(ct, crp, agg, out)
-	} else {
-		err = mtp0.Transform(ct, tf, crp, agg, out)
-	}
-	if err != nil {
-		return h.Failf("C16:mpbgv:"+c.Mode+":Transform:error", "%v", err)
-	}
-	if out.Level() != c.LevelO {
-		return h.Failf("C16:mpbgv:"+c.Mode+":Transform:output-level", "output level %d, requested (CRP / share) level %d", out.Level(), c.LevelO)
-	}
-	gotT := x.decryptT(out, outKeys.ideal)
-	if !ringT.Equal(gotT, wantT) {
-		return h.Failf(fmt.Sprintf("C16:mpbgv:%s:wrong-message:decode=%v,encode=%v", c.Mode, c.Decode, c.Encode),
-			"output decrypts (mod t) to %v..., expected %v... (t=%d, n=%d, levels in=%d e2s=%d out=%d, sigma=%g, f=%s, outMode=%d)",
-			head(gotT.Coeffs[0]), head(wantT.Coeffs[0]), T, n, c.LevelIn, c.LevelE, c.LevelO, c.Sigma, c.FKind, c.OutMode)
-	}
-	if sameKind {
-		// the output is again a batched ciphertext of slot values: its own metadata must describe it
-		have := make([]uint64, x.nT)
-		if err := x.ecd.Decode(rlwe.NewDecryptor(params, outKeys.ideal).DecryptNew(out), have); err != nil {
-			return h.Failf("C16:mpbgv:"+c.Mode+":decode-error", "%v", err)
-		}
-		if !slices.Equal(have, wantValues) {
-			key := "C16:mpbgv:" + c.Mode + ":output-metadata-not-set"
-			msg := fmt.Sprintf("output ciphertext holds the right plaintext polynomial but its metadata (scale %d, input scale %d) does not describe it: Decode gives %v..., expected %v... (outMode=%d)",
-				out.Scale.Uint64(), ctOrig.Scale.Uint64(), head(have), head(wantValues), c.OutMode)
-			if c.OutMode != 2 {
-				return h.Failf("C16:mpbgv:"+c.Mode+":wrong-values", "%s", msg)
-			}
+		if !agg.MetaData.Equal(ct.MetaData) {
+			// an aggregation step wrote into a freshly allocated share: the metadata recorded by GenShare is not carried over
+			key := "C16:mpbgv:AggregateShares:metadata-not-propagated"
+			scratch := bgv.NewCiphertext(paramsOut, 1, r.levelO)
+			*scratch.MetaData = *ct.MetaData
+			terr := mtp0.Transform(ct, tf, crp, agg, scratch)
+			msg := fmt.Sprintf("RefreshShare aggregated into a freshly allocated share has MetaData %+v instead of the one recorded by GenShare; Transform on it returns: %v", agg.MetaData, terr)
 			if rec.Known(key, msg) {
-				rec.Class("known=output-metadata")
+				rec.Class("known=aggregate-metadata")
+				agg.MetaData = *ct.MetaData
 			} else {
 				return h.Failf(key, "%s", msg)
 			}
+		}
+		ringE, ringO := params.RingQ().AtLevel(r.levelE), paramsOut.RingQ().AtLevel(r.levelO)
+		if !congruent(ringE, agg.EncToShareShare.Value, ref.EncToShareShare.Value) || !congruent(ringO, agg.ShareToEncShare.Value, ref.ShareToEncShare.Value) {
+			return h.Failf("C16:mpbgv:"+c.Mode+":AggregateShares:order-dependent", "aggregate depends on the schedule %v", r.merges)
+		}
+
+		var out *rlwe.Ciphertext
+		rng := h.NewSplitMix(r.seed ^ 0x5bd1e995)
+		switch {
+		case r.outMode == 0:
+			out = ct
+		case prevOut != nil && prevOut != ct:
+			// receiver with a history: the output of the previous round (other level, other scale)
+			out = prevOut
+			rec.Class("receiver=previous-output")
+		case r.outMode == 1:
+			out = bgv.NewCiphertext(paramsOut, 1, rng.Intn(paramsOut.MaxLevel()+1))
+			*out.MetaData = *ct.MetaData
+		default:
+			out = bgv.NewCiphertext(paramsOut, 1, rng.Intn(paramsOut.MaxLevel()+1))
+		}
+		aggSnap := copyShare(agg)
+		if c.Mode == "refresh" {
+			err = rfp0.Finalize(ct, crp, agg, out)
+		} else {
+			err = mtp0.Transform(ct, tf, crp, agg, out)
+		}
+		if err != nil {
+			return h.Failf("C16:mpbgv:"+c.Mode+":Transform:error", "%v", err)
+		}
+		if !crp.Value.Equal(crpSnap) || !agg.EncToShareShare.Value.Equal(&aggSnap.EncToShareShare.Value) || !agg.ShareToEncShare.Value.Equal(&aggSnap.ShareToEncShare.Value) {
+			return h.Failf("C16:mpbgv:"+c.Mode+":Transform:input-modified", "Transform modified the CRP or the aggregated share")
+		}
+		if out != ct && !ct.Equal(ctOrig) {
+			return h.Failf("C16:mpbgv:"+c.Mode+":Transform:input-modified", "Transform into another ciphertext modified the input ciphertext")
+		}
+		if out.Level() != r.levelO {
+			return h.Failf("C16:mpbgv:"+c.Mode+":Transform:output-level", "output level %d, requested (CRP / share) level %d", out.Level(), r.levelO)
+		}
+		xo := &bgvCtx{c: c, params: paramsOut, ecd: ecdOut}
+		gotT := xo.decryptT(out, outKeys.ideal)
+		if !ringT.Equal(gotT, wantT) {
+			return h.Failf(fmt.Sprintf("C16:mpbgv:%s:wrong-message:decode=%v,encode=%v", c.Mode, c.Decode, c.Encode),
+				"output decrypts (mod t) to %v..., expected %v... (t=%d, n=%d, levels in=%d e2s=%d out=%d, sigma=%g, f=%s, outMode=%d, first use=%v, other output parameters=%v)",
+				head(gotT.Coeffs[0]), head(wantT.Coeffs[0]), T, n, r.levelIn, r.levelE, r.levelO, c.Sigma, c.FKind, r.outMode, r.first, otherParams)
+		}
+		if sameKind {
+			// the output is again a batched ciphertext of slot values: its own metadata must describe it
+			have := make([]uint64, x.nT)
+			if err := ecdOut.Decode(rlwe.NewDecryptor(paramsOut, outKeys.ideal).DecryptNew(out), have); err != nil {
+				return h.Failf("C16:mpbgv:"+c.Mode+":decode-error", "%v", err)
+			}
+			if !slices.Equal(have, wantValues) {
+				key := "C16:mpbgv:" + c.Mode + ":output-metadata-not-set"
+				msg := fmt.Sprintf("output ciphertext holds the right plaintext polynomial but its metadata (scale %d, input scale %d) does not describe it: Decode gives %v..., expected %v... (outMode=%d, first use=%v)",
+					out.Scale.Uint64(), ctOrig.Scale.Uint64(), head(have), head(wantValues), r.outMode, r.first)
+				if rec.Known(key, msg) {
+					rec.Class("known=output-metadata")
+				} else {
+					return h.Failf(key, "%s", msg)
+				}
+			}
+		}
+		prevOut = out
+		return nil
+	}
+
+	if err := round(bgvRound{ct: x.ct, values: x.values, levelIn: c.LevelIn, levelE: c.LevelE, levelO: c.LevelO, merges: c.Merges, outMode: c.OutMode, seed: c.Seed, first: true}); err != nil {
+		return err
+	}
+	second := false
+	if s := c.Second; s != nil && validMerges(s.Merges, n) && s.LevelE <= s.LevelIn && enoughIn(s.LevelE) && s.LevelIn < len(c.Params.Q) && enoughOut(s.LevelO) &&
+		s.Scale%T != 0 && s.OutMode >= 0 && s.OutMode <= 2 {
+		ct2, values2, err := x.newCT(s.Seed, s.LevelIn, false, s.Scale, s.Pattern)
+		if err != nil {
+			return err
+		}
+		rec.Class("second-ciphertext-same-instances")
+		second = true
+		if err := round(bgvRound{ct: ct2, values: values2, levelIn: s.LevelIn, levelE: s.LevelE, levelO: s.LevelO, merges: s.Merges, outMode: s.OutMode, seed: s.Seed}); err != nil {
+			if fe, ok := err.(*h.Failure); ok {
+				fe.Msg = "[second ciphertext through the same protocol instances] " + fe.Msg
+			}
+			return err
 		}
 	}
 
 	nt := n >= 2 && !canonicalMerges(c.Merges, n)
 	flags := tf != nil && (!c.Decode || !c.Encode)
-	if nt || c.LevelIn < params.MaxLevel() || c.LevelO < params.MaxLevel() || flags {
-		rec.NonTrivial(x.desc("bgv-"+c.Mode, nt) + fmt.Sprintf("|d=%v,e=%v|f=%s|newKey=%v|out=%d|%s", c.Decode, c.Encode, c.FKind, c.NewKey, c.OutMode, patClass(c.Pattern)))
+	if nt || c.LevelIn < params.MaxLevel() || c.LevelO < paramsOut.MaxLevel() || flags || second || otherParams {
+		rec.NonTrivial(x.desc("bgv-"+c.Mode, nt) + fmt.Sprintf("|d=%v,e=%v|f=%s|newKey=%v|out=%d|%s|second=%v|otherParams=%v", c.Decode, c.Encode, c.FKind, c.NewKey, c.OutMode, patClass(c.Pattern), second, otherParams))
 	}
 	return nil
 }
